@@ -19,7 +19,7 @@ import time
 from fractions import Fraction
 
 VERIF = os.path.dirname(os.path.dirname(os.path.abspath(__file__)))
-REPO = '/repo'
+REPO = os.environ.get('VERIF_REPO', '/repo')   # VERIF_REPO: only for exercising the checks against a scratch copy
 COQ = os.path.join(VERIF, 'coq')
 BUILD = os.path.join(VERIF, 'build')
 CORR = os.path.join(BUILD, 'corr')
